@@ -300,3 +300,10 @@ def build_via_tiger(mt, scratch_dir):
     if len(trees_) != 1:
         raise AssertionError('harness: TIGER-XML reader did not return exactly one tree')
     return trees_[0]
+
+
+def cli_options(opts):
+    """The option dict as the command line produces it: every entry rendered as 'key' / 'key:value' and parsed
+    by the tool's own misc.options_dict.  Expectations must be computed from `opts`, not from the result."""
+    from trees import misc
+    return misc.options_dict(['%s' % k if v is True else '%s:%s' % (k, v) for k, v in opts.items()])
